@@ -226,8 +226,45 @@ def controlling(F):
     return {b: frozenset(v) for b, v in clo.items()}
 
 
+_SYN = [-1000000]
+
+
+def expand_cond(P, F, node, depth=0):
+    """the condition with named bools (const bool locals with a side-effect-free initialiser) replaced by what they
+    stand for; only the boolean spine (!, &&, ||, casts) is copied, leaves are the original nodes"""
+    if node is None or depth > 12:
+        return node
+    nl = norm.naming_locals(P, F)
+    n0 = sc(node)
+    if n0 is None:
+        return node
+    k = n0.get("k")
+    if k == "DeclRefExpr" and n0.get("r") in nl.vals and "bool" in (P.d(n0["r"]).get("t") or n0.get("t") or ""):
+        return expand_cond(P, F, nl.vals[n0["r"]], depth + 1)
+    if (k == "UnaryOperator" and n0.get("op") == "!") or (k == "BinaryOperator" and n0.get("op") in ("&&", "||")) or k == "ParenExpr":
+        kids = [expand_cond(P, F, c, depth + 1) for c in n0.get("c", [])]
+        if any(a is not b for a, b in zip(kids, n0.get("c", []))):
+            _SYN[0] -= 1
+            m = dict(n0)
+            m["c"] = kids
+            m["i"] = _SYN[0]
+            return m
+    return node
+
+
 def branch_info(P, F):
     """branch block -> (kind, condition node) where kind in {'switch','loop','cond'}"""
+    out = _branch_info(P, F)
+    for b, (kind, c) in list(out.items()):
+        if kind in ("cond", "assert") and c is not None:
+            try:
+                out[b] = (kind, expand_cond(P, F, c))
+            except Exception:
+                pass
+    return out
+
+
+def _branch_info(P, F):
     out = {}
     for b in F.cfg["blocks"]:
         tk = b.get("tk")
